@@ -221,6 +221,9 @@ def run_sharded(res, exe, args, rundir, nshards=NCPU, per_case_timeout=120, env_
                         res.violations.append(ev)
                     else:
                         res.inconclusive.append(what)
+            if done and not hung:
+                # the shard had finished all its cases and failed while exiting (e.g. LeakSanitizer): nothing is left to run
+                return
             restarts += 1
             start = caseidx + 1
             if hung:
@@ -240,6 +243,18 @@ def run_sharded(res, exe, args, rundir, nshards=NCPU, per_case_timeout=120, env_
         t.start()
     for t in threads:
         t.join()
+
+
+def run_child(cmd, env=None, cwd=None, timeout=120, retry_timeout=None, shell=False, once=False):
+    """Run a child with a watchdog.  A first timeout proves nothing on a loaded machine: the child is run once more with a
+    much longer watchdog.  Returns (returncode, stdout, stderr); returncode None means it did not finish either time."""
+    for t in ((timeout,) if once else (timeout, retry_timeout or timeout * 8)):
+        try:
+            p = subprocess.run(cmd, shell=shell, stdout=subprocess.PIPE, stderr=subprocess.PIPE, env=env, cwd=cwd, timeout=t, text=True, errors="replace")
+            return p.returncode, p.stdout, p.stderr
+        except subprocess.TimeoutExpired:
+            continue
+    return None, "", "timeout (did not finish within %ss, nor within %ss when run again)" % (timeout, retry_timeout or timeout * 8)
 
 
 def load_known(prop):
